@@ -23,7 +23,7 @@ SPECS = {
     'C03': dict(level='translation_validation', engines=['GEN', 'SRC'], rules=['G-LAYOUT', 'G-MOVED', 'W1', 'B-APPEND'],
                 stats=['layout_records', 'cap_layouts', 'kind:conv'],
                 what='offsets are written only by strategy code and only for ids of data being added; all record types of a module have one repr(align) and one field type, rustc layouts agree for several capacities; kept data stay at their (offset,type)'),
-    'C04': dict(level='translation_validation', engines=['GEN', 'SRC'], rules=['G-ACC', 'G-FIELD', 'G-DISJ', 'G-SHAPE', 'G-PRESENT', 'G-STORE', 'G-UNINIT', 'R-PRIM'],
+    'C04': dict(level='translation_validation', engines=['GEN', 'SRC'], rules=['G-ACC', 'G-FIELD', 'G-DISJ', 'G-SHAPE', 'G-PRESENT', 'G-STORE', 'G-UNINIT', 'G-PRIM', 'R-PRIM'],
                 stats=['accessors', 'kind:new', 'kind:new_uninit', 'kind:unpack', 'kind:from_unpacked', 'kind:from_unpacked_uninit', 'disjoint_pairs'],
                 what='accessor / constructor / unpack tables agree per variant, fields are byte-disjoint, primitives touch base+offset through a pointer with write provenance'),
     'C05': dict(level='translation_validation', engines=['GEN'], rules=['G-CONV', 'G-FIELD', 'G-PRESENT', 'G-MOVED', 'G-SHAPE', 'G-ANCHOR', 'G-DISJ', 'G-STORE', 'G-INV'],
@@ -32,8 +32,8 @@ SPECS = {
     'C06': dict(level='translation_validation', engines=['GEN'], rules=['G-LEAK', 'G-DOUBLE', 'G-INV', 'G-OWN', 'G-CONV', 'G-PRESENT', 'G-UNANALYSABLE', 'G-CLONE', 'copy-of-owned', 'overwrite-owned'],
                 stats=['functions', 'paths', 'kind:drop', 'kind:unpack', 'kind:conv'],
                 what='ownership typestate over the bytes of every buffer: on every exit of every generated function each owned droppable cell was consumed exactly once'),
-    'C07': dict(level='translation_validation', engines=['GEN', 'SRC'], rules=['G-CAP', 'G-DEST', 'G-TYPE', 'G-STORE', 'G-DOUBLE', 'G-INV', 'G-OWN', 'G-ACC', 'G-DISJ', 'G-UNANALYSABLE', 'R-PRIM', 'use-after-move'],
-                stats=['cap_accesses', 'dest_checks', 'functions', 'paths'],
+    'C07': dict(level='translation_validation', engines=['GEN', 'SRC'], rules=['G-CAP', 'G-DEST', 'G-PRIM', 'G-TYPE', 'G-STORE', 'G-DOUBLE', 'G-INV', 'G-OWN', 'G-ACC', 'G-DISJ', 'G-UNANALYSABLE', 'R-PRIM', 'use-after-move'],
+                stats=['cap_accesses', 'dest_checks', 'prim_guard_evals', 'functions', 'paths'],
                 what='bounds, offset alignment, record alignment, type agreement at every access, no read of a moved-out cell, no store over an owned cell, no alignment-requiring store into an align-1 buffer'),
     'C08': dict(level='other', engines=['CONV'], rules=['O1', 'O2', 'O3', 'O4', 'O5', 'CONV', 'A-DELEG'],
                 what='three-region invariant of the in-place conversion loop proved by abstract interpretation for all lengths and all converted/abandoned patterns; the result Vec is the input allocation'),
@@ -92,7 +92,7 @@ REQUIRE_STATS = {
     'C04': ['accessors', 'kind:new', 'kind:unpack', 'disjoint_pairs'],
     'C05': ['kind:conv'],
     'C06': ['kind:drop', 'kind:unpack', 'kind:conv', 'kind:new'],
-    'C07': ['cap_accesses', 'dest_checks'],
+    'C07': ['cap_accesses', 'dest_checks', 'prim_guard_evals'],
     'C11': ['assert_types'],
     'C14': ['auto_trait_queries'],
     'C15': ['kind:serialize', 'kind:visit_seq', 'kind:deserialize'],
